@@ -3,6 +3,7 @@ CONSTANTS
   N = 3
   C = 2
   CountFirst = FALSE
+  EarlyAccept = FALSE
 CONSTRAINT HighWater
 INVARIANT Safety
 POSTCONDITION TraceAccepted
